@@ -85,6 +85,19 @@ def batch_scenarios(tier, seed, twin):
                 tops = [dict(id="e%d" % j, kind="att", ents=[e]) for j, e in enumerate(ents)]
                 scs.append(dict(id=tid, world=dict(nkeys=nkeys), conc=conc, gomaxprocs=p, prior=prior, ops=tops))
                 meta[sid]["twin"] = tid
+    # sustained load on the generic batch endpoint: many 64-entry batches at full parallelism (a worker that leaks state into
+    # its neighbours - a shared variable, a reused buffer - shows up only under real contention, a fraction of a percent per entry)
+    nsoak = 150 if tier == "quick" else 1500
+    for part in range(0, nsoak, 50):
+        keys = list(range(64))
+        ops = []
+        for b in range(part, min(part + 50, nsoak)):
+            rnd.shuffle(keys)
+            ops.append(dict(id="m%d" % b, kind="multi", dom="randao",
+                            ents=[dict(k=key, root="S%d" % ((b * 7 + j) % 23), by=("key", "name")[(b + j) % 2]) for j, key in enumerate(keys)]))
+        sid = "B-soak-%d" % part
+        scs.append(dict(id=sid, world=dict(nkeys=nkeys), conc=conc, gomaxprocs=16, prior=[], ops=ops))
+        meta[sid] = dict(size=64, p=16, twin=None)
     return scs, meta
 
 
